@@ -86,6 +86,16 @@ def c13_role(args):
     return None
 
 
+@check('C13.terminates')
+def c13_terminates(args):
+    m, noop = table(args)
+    try:
+        with_watchdog(lambda: m.canonicalize_role(args['role']), 3)
+    except Timeout:
+        return 'canonicalize_role(%r) did not terminate' % (args['role'],)
+    return None
+
+
 @classifier('C13.role')
 def c13_cls(args, detail):
     m, _ = table(args)
@@ -179,6 +189,7 @@ def run_C13(R):
     for r in (':prep', ':prep-x', ':prep-of', ':p', ':prep-x-of-of'):
         R.check('C13.role', {'table': {'roles': [':prep-.*'], 'norms': []}, 'role': r})
         R.check('C13.role', {'table': {'roles': [':.*-of'], 'norms': []}, 'role': r})
+        R.check('C13.terminates', {'table': {'roles': [':prep-.*'], 'norms': []}, 'role': r})
     for it in range(400 if R.quick else 6000):
         node = gens.random_tree(R.rnd, maxn=6, maxd=3,
                                 roles=[':ARG0-of-of', ':mod-of', ':domain-of', 'ARG1', ':consist',
